@@ -20,7 +20,7 @@ RULE = ('static class: topology cases as in C06 (every port kind incl. glob, out
         '_move, _add) with cell updates in flight, timed and step viewers at depth 0-1; non-trivial = static: '
         '>=2 ports and an extra variable or glob children; dynamic: >=2 structural operations applied and >=10 '
         'view comparisons; distinct = distinct case spec')
-PLAN = {'quick': {'n': 3600, 'min_cases': 600}, 'thorough': {'n': 120000, 'min_cases': 12000}}
+PLAN = {'quick': {'n': 9000, 'min_cases': 600}, 'thorough': {'n': 120000, 'min_cases': 12000}}
 REQUIRED_ORACLES = ['static_view_shape', 'view_is_projection', 'no_exception']
 ANCHORS = ['vivarium.core.store:Store.schema_topology', 'vivarium.core.store:Store.build_topology_views',
            'vivarium.core.store:view_values', 'vivarium.core.store:Store._apply_subschema_path',
